@@ -15,12 +15,14 @@ type ScopeProg struct {
 	Neg   string            `json:"neg,omitempty"`   // kind of forbidden declaration injected ("" = positive program)
 	Names []string          `json:"names,omitempty"` // the name set (default a,b,c,d)
 	Tags  map[string]string `json:"tags"`            // tag -> descriptor of the statement that logs it
+	Pad   int               `json:"pad,omitempty"`   // padding: this many extra module-level names/constants and extra locals per function (index arithmetic beyond 255)
 }
 
 type Param struct {
 	Name    string `json:"n"`
 	Default string `json:"d,omitempty"` // "" none | "=name" name expression | constant tag
 	KwOnly  bool   `json:"kw,omitempty"`
+	Star    int    `json:"star,omitempty"` // 1: *name, 2: **name
 }
 
 type Scope struct {
@@ -46,6 +48,7 @@ var scopeNames = []string{"a", "b", "c", "d"}
 var Scale = 1
 
 type scopeGen struct {
+	pad   bool
 	names []string
 	r     *simrt.Rand
 	n     int
@@ -82,6 +85,7 @@ func (si *scopeInfo) enclosingFuncBinds(name string) bool {
 // GenScope generates one scoping program.
 func GenScope(r *simrt.Rand, maxDepth int) *ScopeProg {
 	g := &scopeGen{r: r, tags: map[string]string{}, names: scopeNames}
+	g.pad = r.Chance(1, 12)
 	if r.Chance(1, 5) {
 		// more names: more cell / free variable slots per scope
 		g.names = []string{"a", "b", "c", "d", "e", "f_", "g_", "h_", "i_", "j_"}[:5+r.Intn(6)]
@@ -90,6 +94,9 @@ func GenScope(r *simrt.Rand, maxDepth int) *ScopeProg {
 	si := &scopeInfo{kind: "module", locals: map[string]bool{}, nonloc: map[string]bool{}}
 	g.fill(root, si, 0, maxDepth)
 	p := &ScopeProg{Root: root, Tags: g.tags, Names: g.names}
+	if g.pad {
+		p.Pad = 257 + r.Intn(10)
+	}
 	if r.Chance(1, 6) {
 		g.injectNegative(p)
 	}
@@ -165,6 +172,9 @@ func (g *scopeGen) fill(sc *Scope, si *scopeInfo, depth, maxDepth int) {
 	for i := 0; i < nstm; i++ {
 		n := g.pick()
 		switch x := r.Intn(20); {
+		case x == 6 && r.Chance(1, 2):
+			// the frame's namespace as the introspection builtins see it
+			body = append(body, &Stmt{K: "introspect", N: n, Form: []string{"locals", "eval", "eval"}[r.Intn(3)], Tag: g.tag("introspect:" + where + ":" + role(n))})
 		case x < 7:
 			body = append(body, &Stmt{K: "use", N: n, Tag: g.tag("use:" + where + ":" + role(n))})
 		case x < 9:
@@ -173,6 +183,9 @@ func (g *scopeGen) fill(sc *Scope, si *scopeInfo, depth, maxDepth int) {
 			} else {
 				body = append(body, &Stmt{K: "use", N: n, Tag: g.tag("use:" + where + ":" + role(n))})
 			}
+		case x == 9 && r.Chance(1, 3) && sc.Kind == "func" && role(n) != "free" && role(n) != "global":
+			// snapshot of the frame's namespace, del, snapshot again - with the name captured by a closure
+			body = append(body, &Stmt{K: "snapdel", N: n, Tag: g.tag("snapdel:" + where + ":" + role(n))})
 		case x == 9:
 			if role(n) != "free" {
 				body = append(body, &Stmt{K: "del", N: n, Tag: g.tag("del:" + where + ":" + role(n))})
@@ -182,7 +195,7 @@ func (g *scopeGen) fill(sc *Scope, si *scopeInfo, depth, maxDepth int) {
 				body = append(body, &Stmt{K: "aug", N: n, Tag: g.tag("aug:" + where + ":" + role(n))})
 			}
 		case x < 15:
-			if depth < maxDepth && nested < 3 {
+			if depth < maxDepth && nested < 3 && g.n < 36 {
 				nested++
 				sub := &Scope{Kind: "func", Name: fmt.Sprintf("f%d", g.n+1)}
 				g.n++
@@ -205,12 +218,27 @@ func (g *scopeGen) fill(sc *Scope, si *scopeInfo, depth, maxDepth int) {
 						sub.Params = append(sub.Params, Param{Name: pn, Default: d, KwOnly: r.Chance(1, 4)})
 					}
 				}
+				// star parameters (often captured by the scopes nested below)
+				for _, star := range []int{1, 2} {
+					if r.Chance(1, 5) || (g.pad && r.Chance(1, 2)) {
+						pn := g.pick()
+						dup := false
+						for _, q := range sub.Params {
+							if q.Name == pn {
+								dup = true
+							}
+						}
+						if !dup {
+							sub.Params = append(sub.Params, Param{Name: pn, Star: star})
+						}
+					}
+				}
 				ssi := &scopeInfo{kind: "func", locals: map[string]bool{}, nonloc: map[string]bool{}, parent: si}
 				g.fill(sub, ssi, depth+1, maxDepth)
 				body = append(body, &Stmt{K: "def", Sub: sub, Tag: g.tag("def:" + where)})
 			}
 		case x < 17:
-			if depth < maxDepth && nested < 3 {
+			if depth < maxDepth && nested < 3 && g.n < 36 {
 				nested++
 				sub := &Scope{Kind: "class", Name: fmt.Sprintf("C%d", g.n+1)}
 				g.n++
@@ -293,6 +321,11 @@ func (p *ScopeProg) nameSet() []string {
 func (p *ScopeProg) Render() string {
 	var b strings.Builder
 	renderNames = p.nameSet()
+	renderPad = p.Pad
+	defer func() { renderPad = 0 }()
+	for i := 0; i < p.Pad; i++ {
+		fmt.Fprintf(&b, "_p%d = \"p%d\"\n", i, i)
+	}
 	b.WriteString("from simlog import log, exc_name\nK = []\nclass _CM:\n    def __init__(self, v):\n        self.v = v\n    def __enter__(self):\n        return self.v\n    def __exit__(self, *a):\n        return False\n")
 	renderStmts(&b, p.Root, p.Root.Stmts, 0)
 	b.WriteString("for _k in list(K):\n    try:\n        _k(\"kcall\")\n    except Exception as _e:\n        log(\"kcall\", exc_name(_e))\n")
@@ -304,6 +337,17 @@ func (p *ScopeProg) Render() string {
 
 // renderNames is set by Render for the class-attribute probes (single-threaded use).
 var renderNames = scopeNames
+
+// renderPad is set by Render (padding locals at the head of every function).
+var renderPad = 0
+
+func padLocals(n int) string {
+	names := make([]string, n)
+	for i := range names {
+		names[i] = fmt.Sprintf("_q%d", i)
+	}
+	return "(" + strings.Join(names, ", ") + ") = range(" + fmt.Sprint(n) + ")"
+}
 
 func renderStmts(b *strings.Builder, sc *Scope, stmts []*Stmt, ind int) {
 	pad := strings.Repeat("    ", ind)
@@ -351,6 +395,20 @@ func renderStmts(b *strings.Builder, sc *Scope, stmts []*Stmt, ind int) {
 			}
 		case "use":
 			w("try:\n    log(\"%s\", %s)\nexcept NameError as _e:\n    log(\"%s\", exc_name(_e))", st.Tag, st.N, st.Tag)
+		case "snapdel":
+			snap := func(k string) {
+				w("try:\n    log(\"%s\", \"%s\", \"%s\" in locals(), eval(\"%s\"))\nexcept NameError as _e:\n    log(\"%s\", \"%s\", exc_name(_e))", st.Tag, k, st.N, st.N, st.Tag, k)
+			}
+			w("K.append(lambda *_a: %s)", st.N)
+			snap("before")
+			w("try:\n    del %s\n    log(\"%s\", \"deleted\")\nexcept NameError as _e:\n    log(\"%s\", exc_name(_e))", st.N, st.Tag, st.Tag)
+			snap("after")
+		case "introspect":
+			if st.Form == "locals" {
+				w("log(\"%s\", \"%s\" in locals())", st.Tag, st.N)
+			} else {
+				w("try:\n    log(\"%s\", eval(\"%s\"))\nexcept NameError as _e:\n    log(\"%s\", exc_name(_e))", st.Tag, st.N, st.Tag)
+			}
 		case "del":
 			w("try:\n    del %s\n    log(\"%s\", \"deleted\")\nexcept NameError as _e:\n    log(\"%s\", exc_name(_e))", st.N, st.Tag, st.Tag)
 		case "aug":
@@ -389,13 +447,8 @@ func renderStmts(b *strings.Builder, sc *Scope, stmts []*Stmt, ind int) {
 		case "def":
 			sub := st.Sub
 			var ps []string
-			star := false
-			for _, p := range sub.Params {
+			one := func(p Param) string {
 				s := p.Name
-				if p.KwOnly && !star {
-					ps = append(ps, "*")
-					star = true
-				}
 				if p.Default != "" {
 					if strings.HasPrefix(p.Default, "=") {
 						s += "=" + p.Default[1:]
@@ -403,9 +456,42 @@ func renderStmts(b *strings.Builder, sc *Scope, stmts []*Stmt, ind int) {
 						s += "=\"" + p.Default + "\""
 					}
 				}
-				ps = append(ps, s)
+				return s
+			}
+			// order: positional, padding, *name (or a bare * before keyword-only ones), keyword-only, **name
+			var kwonly []string
+			star1, star2 := "", ""
+			for _, p := range sub.Params {
+				switch {
+				case p.Star == 1:
+					star1 = "*" + p.Name
+				case p.Star == 2:
+					star2 = "**" + p.Name
+				case p.KwOnly:
+					kwonly = append(kwonly, one(p))
+				default:
+					ps = append(ps, one(p))
+				}
+			}
+			if renderPad > 0 {
+				for i := 0; i < 60; i++ {
+					ps = append(ps, fmt.Sprintf("_a%d=0", i))
+				}
+			}
+			if star1 != "" {
+				ps = append(ps, star1)
+			} else if len(kwonly) > 0 {
+				ps = append(ps, "*")
+			}
+			ps = append(ps, kwonly...)
+			if star2 != "" {
+				ps = append(ps, star2)
 			}
 			w("try:\n    def %s(%s):", sub.Name, strings.Join(ps, ", "))
+			if renderPad > 0 {
+				// the padding locals; six of them captured (cells), so that cells x arguments is large
+				fmt.Fprintf(b, "%s%s\n%s_qc = lambda: (_q0, _q1, _q2, _q3, _q4, _q5)\n", strings.Repeat("    ", ind+2), padLocals(renderPad), strings.Repeat("    ", ind+2))
+			}
 			renderStmts(b, sub, sub.Stmts, ind+2)
 			w("except Exception as _e:\n    log(\"%s\", \"def\", exc_name(_e))", st.Tag)
 			if sc.Kind != "class" {
